@@ -1,13 +1,26 @@
 (** C06 - Compression keeps the message, stays valid and never grows the packet.
 
-    PARTIAL.  Proved: whatever [compress] returns starts with the input's 12 header bytes, and name
-    emission only appends to the output.  The packet-level statement (accepted, not longer, same
-    records up to name case, question name byte-identical, round trip through decompression, every
-    pointer designates its suffix in the output) is decided on every run by the correspondence and the
+    PARTIAL.  Proved at packet level (C06_succeeds_and_never_grows): for every accepted packet that
+    decompression leaves unchanged (i.e. every accepted pointer-free packet, by C05), [compress]
+    returns a packet - no error and none of the model's Panic outcomes (slice ranges, the
+    dictionary's assertions, patch positions, fuel) - that is no longer than its input; the proof
+    carries "output so far <= input consumed so far" and the dictionary's well-formedness through the
+    question and the three section walks.  Proved for one name (every pointer-free name of at most 255 bytes given by its labels,
+    wherever it sits in the input, every well-formed dictionary, every output so far): name emission
+    succeeds and appends the first k labels verbatim followed by the root byte (k = all labels) or by
+    a two-byte pointer to an offset the dictionary holds for a candidate that compares equal to the
+    remaining suffix and is not longer; the emission is never longer than the name; the dictionary
+    stays well-formed and grows only by (output offset where a suffix of this name was just written,
+    that suffix), below offset 16384 (C06_name_emission).  The dictionary's comparison on
+    pointer-free names is label-wise equality up to ASCII case (C06_dictionary_comparison).  Also:
+    whatever [compress] returns starts with the input's 12 header bytes, and name emission only
+    appends to the output.  The packet-level statement (accepted, not longer, same records up to
+    name case, question name byte-identical, round trip through decompression, every pointer
+    designates its suffix in the output) is decided on every run by the correspondence and the
     reference-decoder oracle.  Known finding (class chain-depth): nested suffixes can build pointer
     chains of more than 16 hops, which the parser rejects. *)
 From DV Require Import Model.Base Model.Parser Model.Header Model.Readers Model.Uncompress Model.Compress
-  Proofs.Hoare Proofs.CompressFrame.
+  Spec.NameSpec Proofs.Hoare Proofs.CompressFrame Proofs.RenameSpec Proofs.CompressName Proofs.CompressSize.
 
 Theorem C06_header_kept : forall (p out : bytes),
   compress p = Ok out -> firstn 12 out = firstn 12 p /\ 12 <= length out.
@@ -18,3 +31,55 @@ Theorem C06_name_emission_appends : forall d out p off out' d' l f,
   copy_compressed_name d out p off = Ok (out', d', l, f) -> exists sfx, out' = out ++ sfx.
 Proof. exact copy_compressed_name_appends. Qed.
 Print Assumptions C06_name_emission_appends.
+
+Theorem C06_name_emission : forall ls A B d out, Forall lab ls -> length (wire_of_labels ls) <= 255 -> sd_wf d ->
+  exists enc d',
+    copy_compressed_name d out (A ++ wire_of_labels ls ++ B) (length A) =
+      Ok (out ++ enc, d', length enc, length A + length (wire_of_labels ls)) /\
+    emission d (length out) ls enc d'.
+Proof. exact copy_compressed_name_plain. Qed.
+Print Assumptions C06_name_emission.
+
+(** [emission] spelled out (so that the statement above cannot be weakened silently) *)
+Example C06_emission_means : forall d base ls enc d', emission d base ls enc d' <->
+  exists k tail, enc = labels_flat (firstn k ls) ++ tail /\ k <= length ls /\
+    ((k = length ls /\ tail = [0%N]) \/
+     (k < length ls /\ exists o cand, tail = ptr_bytes o /\ In (o, cand) (sd_entries d') /\
+        length cand <= length (wire_of_labels (skipn k ls)) /\
+        raw_names_eq_ignore_case (wire_of_labels (skipn k ls)) cand 0 = true)) /\
+    length enc <= length (wire_of_labels ls) /\ sd_wf d' /\
+    forall o c, In (o, c) (sd_entries d') -> In (o, c) (sd_entries d) \/
+      exists j, j < k /\ c = wire_of_labels (skipn j ls) /\ o = base + length (labels_flat (firstn j ls)) /\ (N.of_nat o < 16384)%N.
+Proof. intros. reflexivity. Qed.
+
+Theorem C06_dictionary_comparison : forall a b, Forall lab a -> Forall lab b ->
+  raw_names_eq_ignore_case (wire_of_labels a) (wire_of_labels b) 0 = true -> ci_labels a b.
+Proof. exact raw_names_eq_labels. Qed.
+Print Assumptions C06_dictionary_comparison.
+
+Theorem C06_succeeds_and_never_grows : forall p v, bytes_ok p -> parse p = Ok v -> uncompress p = Ok p ->
+  exists out, compress p = Ok out /\ length out <= length p.
+Proof. exact compress_never_grows. Qed.
+Print Assumptions C06_succeeds_and_never_grows.
+
+(** Non-vacuity of its hypotheses: a pointer-free response "a A?" with answers "a A 1.2.3.4" and "b.a NS a" is accepted,
+    is a fixed point of decompression, and compresses from 54 to 51 bytes. *)
+Example C06_hypotheses_met :
+  let p := [0;1; 129;128; 0;1; 0;2; 0;0; 0;0;  1;97;0; 0;1; 0;1;
+            1;97;0; 0;1; 0;1; 0;0;0;9; 0;4; 1;2;3;4;
+            1;98;1;97;0; 0;2; 0;1; 0;0;0;9; 0;3; 1;97;0]%N in
+  bytes_ok p /\ (exists v, parse p = Ok v) /\ uncompress p = Ok p /\
+  exists out, compress p = Ok out /\ length p = 54 /\ length out = 51.
+Proof.
+  cbv zeta. split; [unfold bytes_ok; repeat constructor|]. split; [eexists; vm_compute; reflexivity|].
+  split; [vm_compute; reflexivity|]. eexists. split; [vm_compute; reflexivity|]. split; reflexivity.
+Qed.
+
+(** Non-vacuity: "www.example" after "example" was written at output offset 12 becomes "www" + pointer to 12. *)
+Example C06_sample :
+  let d := {| sd_index := 1; sd_entries := [(12, wire_of_labels [[101;120;97;109;112;108;101]%N])] |} in
+  sd_wf d /\
+  copy_compressed_name d (repeat 0%N 40) (wire_of_labels [[119;119;119];[101;120;97;109;112;108;101]]%N) 0 =
+    Ok (repeat 0%N 40 ++ [3;119;119;119;192;12]%N, {| sd_index := 2; sd_entries := [(12, wire_of_labels [[101;120;97;109;112;108;101]%N]);
+        (40, wire_of_labels [[119;119;119];[101;120;97;109;112;108;101]]%N)] |}, 6, 13).
+Proof. split; [unfold sd_wf; cbn; lia|vm_compute; reflexivity]. Qed.
